@@ -393,7 +393,34 @@ def rule_template(run):
     run.end()
 
 
-RULES = [rule_core, rule_record, rule_std_array, rule_bitfield, rule_adapters, rule_template]
+def rule_value_qualifier(run):
+    run.begin(
+        "C17.value",
+        "std.Value[T](x) (the default qualifier of from_bits) yields an object of type T: a run-time operand is passed "
+        "through unchanged only when it already is a Temporary[T]; otherwise it is converted to Temporary[T]",
+        floor=2,
+    )
+    cu = run.idx.mod(CU)
+    f = cu.func("_Value.__call__")
+    from .c07 import guards as _guards
+    n = 0
+    for r in walk_local(f.node):
+        if isinstance(r, ast.Return) and isinstance(r.value, ast.Name) and r.value.id == "arg":
+            n += 1
+            g = _guards(f.node, r, cu.parents)
+            ok = any(x == "if isinstance(arg, Temporary[T])" for x in g)
+            run.ob(ok, "_Value.__call__", file=cu.rel, line=r.lineno, detail=f"pass-through#{n}", expected="returned unchanged only if isinstance(arg, Temporary[T])", found=str([str(x) for x in g][-2:]))
+    conv = [c for c in calls_in(f.node) if src(c.func) == "Temporary[T]"]
+    run.ob(len(conv) >= 2 and n >= 1, "_Value.__call__", file=cu.rel, line=f.node.lineno, detail="converts", expected="run-time operands of another type are converted with Temporary[T](arg)", found=f"{len(conv)} conversions, {n} pass-through")
+    run.end()
+
+
+def rule_views(run):
+    from ..rules import views
+    views.run_rule(run, "F-VIEW")   # nested records / bit fields are slices of slices: offsets must accumulate
+
+
+RULES = [rule_core, rule_record, rule_std_array, rule_bitfield, rule_adapters, rule_template, rule_value_qualifier, rule_views]
 LEVEL = "other"
 EXPLANATION = (
     "Serialisers are interpreted abstractly over symbolic bits (sa/absint.py; cohdl is never imported): for Bit, the "
